@@ -270,8 +270,8 @@ def impl_report(lj, rj, arr, aoh, limit_s=10.0):
     """{"rep": sorted canonical entries} | {"crash": type, "site": ...} | {"timeout": 1}"""
     from yamlpath.differ import Differ, DifferConfig
     log = core.quiet_logger()
-    old = signal.signal(signal.SIGALRM, _alarm)
-    signal.setitimer(signal.ITIMER_REAL, limit_s)
+    old = signal.signal(signal.SIGVTALRM, _alarm)
+    signal.setitimer(signal.ITIMER_VIRTUAL, limit_s)
     try:
         cfg = DifferConfig(log, SimpleNamespace(arrays=arr, aoh=aoh))
         d = Differ(cfg, log, codec.json_to_ruamel(lj))
@@ -289,8 +289,8 @@ def impl_report(lj, rj, arr, aoh, limit_s=10.0):
     except Exception as e:  # noqa
         return {"crash": type(e).__name__, "site": core.crash_site(e), "cls": core.exc_class(e)}
     finally:
-        signal.setitimer(signal.ITIMER_REAL, 0)
-        signal.signal(signal.SIGALRM, old)
+        signal.setitimer(signal.ITIMER_VIRTUAL, 0)
+        signal.signal(signal.SIGVTALRM, old)
 
 
 def model_rep(mo):
@@ -685,8 +685,8 @@ def cli_exit(lj, rj, arr, aoh, tmpd, dfl_in_config=False):
     argv += [lf, rf]
     old_argv = sys.argv
     sys.argv = argv
-    old = signal.signal(signal.SIGALRM, _alarm)
-    signal.setitimer(signal.ITIMER_REAL, 20.0)
+    old = signal.signal(signal.SIGVTALRM, _alarm)
+    signal.setitimer(signal.ITIMER_VIRTUAL, 20.0)
     buf = io.StringIO()
     try:
         with contextlib.redirect_stdout(buf), contextlib.redirect_stderr(io.StringIO()):
@@ -700,8 +700,8 @@ def cli_exit(lj, rj, arr, aoh, tmpd, dfl_in_config=False):
     except Exception as e:  # noqa
         return ("crash:%s@%s" % (type(e).__name__, core.crash_site(e)), "")
     finally:
-        signal.setitimer(signal.ITIMER_REAL, 0)
-        signal.signal(signal.SIGALRM, old)
+        signal.setitimer(signal.ITIMER_VIRTUAL, 0)
+        signal.signal(signal.SIGVTALRM, old)
         sys.argv = old_argv
 
 
